@@ -57,7 +57,7 @@ class Replay:
         cls.build()
         if cls._proc is None or cls._proc.poll() is not None:
             exe = os.path.join(BUILD, 'replay', 'release', 'replay')
-            cls._proc = subprocess.Popen([exe], stdin=subprocess.PIPE, stdout=subprocess.PIPE, text=True)
+            cls._proc = subprocess.Popen([exe], stdin=subprocess.PIPE, stdout=subprocess.PIPE, text=True, env=dict(os.environ, VERIF_BUILD=BUILD))
         cls._proc.stdin.write(json.dumps(req) + '\n')
         cls._proc.stdin.flush()
         line = cls._proc.stdout.readline()
